@@ -1,8 +1,58 @@
 /- Evaluation of the specification predicates on serialised outcomes (driver side). -/
 import Bashlex.Serialize
+import Bashlex.Spec.PyVal
+import Bashlex.Spec.Tree
 
 namespace Bashlex
+open Spec
 
-def specHandle (_cmd _opts _inp : String) : String := "BAD-REQUEST"
+def dedup (l : List String) : List String :=
+  l.foldl (fun acc x => if acc.contains x then acc else acc ++ [x]) []
+
+/-- the parts of an `OK [...]` / `ONE {...}` outcome line, typed -/
+def outcomeNodes (line : String) : Except String (List Node) :=
+  if line.startsWith "OK " then
+    match PyVal.parse (line.drop 3).toString with
+    | .ok (.list l) => PyVal.toNodes l
+    | .ok _ => .error "parse() did not return a list"
+    | .error e => .error ("unparsable outcome: " ++ e)
+  else if line == "ONE None" then .ok []
+  else if line.startsWith "ONE " then
+    match PyVal.parse (line.drop 4).toString with
+    | .ok v => (PyVal.toNode v).map ([·])
+    | .error e => .error ("unparsable outcome: " ++ e)
+  else .error "not a tree outcome"
+
+def evalProp (prop : String) (src : Str) (parts : List Node) : List Viol :=
+  match prop with
+  | "C03" => (parts.map (spansWF src.length)).flatten ++
+      (if ordered parts then [] else ["top-level-parts-unordered"])
+  | "C04" => (parts.map (textOK src)).flatten
+  | "C05" => coverOK src parts
+  | "C12" => (parts.map schemaOK).flatten
+  | _ => ["unknown-property"]
+
+/-- `spec <props> <src> <outcome line>` → `C03:sig,sig C12:` ...; `ILL:<reason>` if the outcome
+    is not a well-typed tree -/
+def specHandle (cmd opts inp : String) (extra : List String) : String :=
+  match cmd, extra with
+  | "spec", [line] =>
+    let src := parseHexInputS inp
+    match outcomeNodes line with
+    | .error e => "ILL:" ++ e
+    | .ok parts =>
+      " ".intercalate ((opts.splitOn ",").map fun p =>
+        p ++ ":" ++ ",".intercalate (dedup (evalProp p src parts)))
+  | _, _ => "BAD-REQUEST"
+where
+  parseHexInputS (s : String) : Str :=
+    if s == "" || s == "-" then []
+    else (s.splitOn ".").filterMap fun h =>
+      let n := h.toList.foldl (fun acc c =>
+        let d := if '0' ≤ c && c ≤ '9' then c.toNat - 48
+                 else if 'a' ≤ c && c ≤ 'f' then c.toNat - 87
+                 else if 'A' ≤ c && c ≤ 'F' then c.toNat - 55 else 0
+        16 * acc + d) 0
+      if h == "" then none else some (Char.ofNat n)
 
 end Bashlex
